@@ -694,6 +694,16 @@ static int _GD_Change(DIRFILE *D, const char *field_code, const gd_entry_t *N,
         field_free = 1;
       }
 
+      /* as in _GD_Add: literal parameters must describe bits 0..63 */
+      if (Q.scalar[0] == NULL && Q.scalar[1] == NULL &&
+          (Q.EN(bit,numbits) > 64 ||
+           Q.EN(bit,bitnum) > 64 - Q.EN(bit,numbits)))
+      {
+        _GD_SetError(D, GD_E_BAD_ENTRY, GD_E_ENTRY_BITSIZE, NULL,
+            (int)((unsigned)Q.EN(bit,bitnum) + (unsigned)Q.EN(bit,numbits)
+              - 1U), NULL);
+      }
+
       break;
     case GD_MULTIPLY_ENTRY:
     case GD_DIVIDE_ENTRY:
